@@ -79,6 +79,10 @@ impl Ctx {
     /// Parse `argv`: `[quick|thorough] [--replay FILE]`. Tier can also come
     /// from `VERIF_TIER`, seed from `VERIF_SEED`.
     pub fn new(id: &str) -> Ctx {
+        // anyhow captures a backtrace for every Err when RUST_BACKTRACE is set (very slow in sweeps)
+        if std::env::var_os("RUST_LIB_BACKTRACE").is_none() {
+            std::env::set_var("RUST_LIB_BACKTRACE", "0");
+        }
         install_quiet_panic_hook();
         let args: Vec<String> = std::env::args().skip(1).collect();
         let mut tier = match std::env::var("VERIF_TIER").ok().as_deref() {
